@@ -2,6 +2,7 @@
 package c03
 
 import (
+	"context"
 	"encoding/json"
 	"fmt"
 	"testing"
@@ -10,6 +11,7 @@ import (
 	pubast "github.com/cedar-policy/cedar-go/ast"
 	"github.com/cedar-policy/cedar-go/types"
 	xast "github.com/cedar-policy/cedar-go/x/exp/ast"
+	"github.com/cedar-policy/cedar-go/x/exp/batch"
 	xeval "github.com/cedar-policy/cedar-go/x/exp/eval"
 	"pgregory.net/rapid"
 
@@ -87,7 +89,7 @@ func expected(c *Case) bool {
 	}
 	typeOK := true
 	switch c.Form {
-	case "isin", "scope-p-isin", "scope-r-isin":
+	case "isin", "isinset", "scope-p-isin", "scope-r-isin":
 		typeOK = c.Types[c.Src] == c.IsType
 	case "scope-r-is":
 		return c.Types[c.Src] == c.IsType
@@ -110,9 +112,15 @@ func observe(c *Case, em types.EntityMap) (got bool, err error) {
 	src := uid(c, c.Src)
 	other := types.NewEntityUID("Other", "o")
 	switch c.Form {
-	case "in", "inset", "isin":
+	case "in", "inset", "isin", "isinset":
 		var n xast.IsNode
 		switch c.Form {
+		case "isinset":
+			var es []xast.IsNode
+			for _, t := range c.Targets {
+				es = append(es, lit(uid(c, t)))
+			}
+			n = xast.NodeTypeIsIn{NodeTypeIs: xast.NodeTypeIs{Left: lit(src), EntityType: types.EntityType(c.IsType)}, Entity: xast.NodeTypeSet{Elements: es}}
 		case "in":
 			n = xast.NodeTypeIn{BinaryNode: xast.BinaryNode{Left: lit(src), Right: lit(uid(c, c.Targets[0]))}}
 		case "inset":
@@ -184,6 +192,27 @@ func observe(c *Case, em types.EntityMap) (got bool, err error) {
 	dec, diag := cedar.Authorize(ps, em, req)
 	if len(diag.Errors) > 0 {
 		return false, fmt.Errorf("authorize error: %v", diag.Errors[0].Message)
+	}
+	// another observation point: the same question through the partial evaluator - batch authorization in which the
+	// queried entity is the only value of a variable (scope clauses are decided by partial evaluation there)
+	breq := batch.Request{Principal: req.Principal, Action: req.Action, Resource: req.Resource, Context: req.Context, Variables: batch.Variables{"v": {src}}}
+	switch c.Form[:7] {
+	case "scope-p":
+		breq.Principal = batch.Variable("v")
+	case "scope-a":
+		breq.Action = batch.Variable("v")
+	default:
+		breq.Resource = batch.Variable("v")
+	}
+	var bdec []cedar.Decision
+	if err := batch.Authorize(context.Background(), ps, em, breq, func(r batch.Result) error {
+		bdec = append(bdec, r.Decision)
+		return nil
+	}); err != nil || len(bdec) != 1 {
+		return false, fmt.Errorf("batch.Authorize with the queried entity as a variable: %d results, error %v", len(bdec), err)
+	}
+	if bdec[0] != dec {
+		return false, fmt.Errorf("cedar.Authorize decides %v, batch.Authorize with the queried entity as a variable decides %v", dec, bdec[0])
 	}
 	return dec == cedar.Allow, nil
 }
@@ -367,6 +396,15 @@ func exhaustive(t *testing.T, n int, stride uint32) {
 							fails++
 							report(t, "scope-a-inset", c, msg)
 						}
+						for _, ty := range []string{"T0", "T1"} {
+							c.Form, c.IsType = "isinset", ty
+							pairs++
+							if msg := checkCase(c, em); msg != "" && fails < 50 {
+								fails++
+								report(t, "isinset", c, msg)
+							}
+						}
+						c.IsType = ""
 					}
 					for b := 0; b < n; b++ {
 						for _, f := range []string{"isin", "scope-p-in", "scope-p-isin", "scope-a-in", "scope-r-in", "scope-r-isin", "scope-r-is"} {
@@ -467,9 +505,9 @@ func genCase(t *rapid.T) *Case {
 		}
 	}
 	c.Src = rapid.IntRange(-1, n-1).Draw(t, "src") // -1: the zero-value uid
-	c.Form = rapid.SampledFrom([]string{"in", "in", "inset", "inset", "isin", "scope-p-in", "scope-p-isin", "scope-a-in", "scope-a-inset", "scope-r-in", "scope-r-isin", "scope-r-is"}).Draw(t, "form")
+	c.Form = rapid.SampledFrom([]string{"in", "in", "inset", "inset", "isin", "isinset", "isinset", "scope-p-in", "scope-p-isin", "scope-a-in", "scope-a-inset", "scope-r-in", "scope-r-isin", "scope-r-is"}).Draw(t, "form")
 	nt := 1
-	if c.Form == "inset" || c.Form == "scope-a-inset" {
+	if c.Form == "inset" || c.Form == "isinset" || c.Form == "scope-a-inset" {
 		nt = rapid.IntRange(0, 10).Draw(t, "ntargets")
 	}
 	for i := 0; i < nt; i++ {
